@@ -83,8 +83,8 @@ pub fn render_trait(name: &str, trait_int: i64, rows: &[Vec<i64>]) -> String {
         let n = r[4] as usize;
         let mut args = String::new();
         for i in 0..n { args.push_str(&format!(", a{}: {}", i, arg_ty(r[5 + 2 * i], r[6 + 2 * i]))); }
-        // intmode +16: a provided method bounded by `where Self: Sized` (it still has a slot: the opaque object forwards it like any other)
-        let sized = r[1] & 16 != 0 && has_default;
+        // receiver field +16: a provided method bounded by `where Self: Sized` (it still has a slot: the opaque object forwards it like any other)
+        let sized = r[0] & 16 != 0 && has_default;
         s.push_str(&format!("    fn {}{}({}{}){}{}{}\n", mname(k, r), if lt { "<'a>" } else { "" }, recv, args, ret_ty(r[2], r[3]), if sized { " where Self: Sized" } else { "" }, if has_default { " { loop {} }" } else { ";" }));
     }
     s.push_str("}\n");
